@@ -235,6 +235,13 @@ EXEC_GROUPS = [
     ["do 77 i = 1, 3", "a(i) = 0.0", "77 continue"],
     ["do 78 i = 1, 3", "78 a(i) = 1.0"],
     ["do i = n, 1, -1", "if (a(i) < 0.0) cycle", "a(i) = 0.0", "enddo"],
+    ["do 79 i = 1, 3", "79 if (i > 1) a(i) = i"],
+    ["do 80 i = 1, 3", "80 allocate(w(i))"],
+    ["do 81 i = 1, 3", "81 open(10, file='x.dat')"],
+    ["do 82 i = 1, 3", "do 82 j = 1, 3", "82 mat(i, j) = 0.0"],
+    ["do 83 i = 1, 3", "83 stop"],
+    ["do 84 i = 1, 3", "84 call s()"],
+    ["do 85 i = 1, 3", "85 write(*, *) i"],
     ["where (a > 0.0)", "a = 1.0", "elsewhere (a < -1.0)", "a = -1.0", "elsewhere", "a = 0.0",
      "end where"],
     ["forall (i = 1:3)", "where (mat(i, :) > 0.0) mat(i, :) = 1.0", "vec(i) = 0.0",
